@@ -218,7 +218,8 @@ Section Content.
   Variable dir : string.
 
   (* the content of reader blocks in document order: what each block says, as the content items
-     of NormFacts (a line of inlines, a code body, a rule; table cells one by one); the text that
+     of NormFacts (a line of inlines as it is written back - note links by key, relative to the note's
+     directory again: [rel_inlines dir (to_ginlines dir l)] -, a code body, a rule; table cells one by one); the text that
      leads a list item is the item's line, an item that does not start with text has an empty
      line (and an item that is just a list is that list's items) *)
   Fixpoint bcontent (b : dblock) {struct b} : list citem :=
@@ -229,13 +230,13 @@ Section Content.
       | it :: r =>
           (match it with
            | [] => []
-           | (DPara _ _ | DHeader _ _ _) as h :: body => CI (lead_inlines dir h) :: go body
+           | (DPara _ _ | DHeader _ _ _) as h :: body => CI (rel_inlines dir (lead_inlines dir h)) :: go body
            | [(DBList _ | DOList _) as h] => bcontent h          (* merged into the enclosing list *)
            | _ => CI [] :: go it                                  (* an item without text: an empty line *)
            end) ++ goi r
       end in
     match b with
-    | DHeader _ _ l => [CI (to_ginlines dir l)]
+    | DHeader _ _ l => [CI (rel_inlines dir (to_ginlines dir l))]
     | DQuote _ bs => go bs
     | DOList its | DBList its => goi its
     | _ => tcontent dir (T None (leaf_node dir b) [])
@@ -246,7 +247,7 @@ Section Content.
   Definition item_content (it : list dblock) : list citem :=
     match it with
     | [] => []
-    | (DPara _ _ | DHeader _ _ _) as h :: body => CI (lead_inlines dir h) :: bscontent body
+    | (DPara _ _ | DHeader _ _ _) as h :: body => CI (rel_inlines dir (lead_inlines dir h)) :: bscontent body
     | [(DBList _ | DOList _) as h] => bcontent h
     | _ => CI [] :: bscontent it
     end.
@@ -266,7 +267,7 @@ Section Content.
              (match it with
               | [] => []
               | (DPara _ _ | DHeader _ _ _) as h :: body =>
-                  CI (lead_inlines dir h) ::
+                  CI (rel_inlines dir (lead_inlines dir h)) ::
                   (fix go (l : list dblock) : list citem := match l with [] => [] | x :: r => bcontent x ++ go r end) body
               | [(DBList _ | DOList _) as h] => bcontent h
               | _ =>
@@ -335,7 +336,7 @@ Section Content.
 
   (* content of the items of a list node: every item tree is a section node *)
   Definition items_content (ts : list tree) : list citem :=
-    flat_map (fun c => match c with T _ cn ck => CI (node_inlines cn) :: flat_map (tcontent dir) ck end) ts.
+    flat_map (fun c => match c with T _ cn ck => CI (out_inlines dir cn) :: flat_map (tcontent dir) ck end) ts.
 
   Lemma items_content_app a b : items_content (a ++ b) = items_content a ++ items_content b.
   Proof. unfold items_content. apply flat_map_app. Qed.
